@@ -163,6 +163,8 @@ def gen_case(rng, malformed=False, freqs=None):
         else:
             c[k] = c.get(k, []) + [rng.choice(bad[k])]
         c["malformed"] = True
+    if rng.random() < 0.3:
+        respell(rng, c)
     # termination
     t = rng.random()
     if t < 0.33:
@@ -232,10 +234,95 @@ def kwargs_of(c):
             v = [(R.weekdays[w] if (c.get("scalars") and (w + n) % 2 == 0) else w) if n == 0 else R.weekdays[w](n) for w, n in v]
         else:
             v = list(v)
+        if c.get("bools") and k != "byweekday":
+            v = [bool(x) if x in (0, 1) else x for x in v]            # True == 1, False == 0: the same member
         if c.get("scalars") and len(v) == 1:
             v = v[0]
+        else:
+            v = _container(v, (c.get("container") or {}).get(k))
         kw[k] = v
     return kw
+
+
+def _container(v, how):
+    """the same members in another spelling of the argument: tuple / set / frozenset / a generator or iterator that can be
+    consumed only once / a dict's keys view"""
+    if how in (None, "list"):
+        return v
+    if how == "tuple":
+        return tuple(v)
+    if how == "gen":
+        return (x for x in v)
+    if how == "iter":
+        return iter(list(v))
+    if how == "set":
+        return set(v)
+    if how == "frozenset":
+        return frozenset(v)
+    if how == "keys":
+        return dict.fromkeys(v).keys()
+    return v
+
+
+CONTAINERS = ["list", "tuple", "gen", "iter", "set", "frozenset", "keys"]
+
+
+def respell(rng, c, p_key=0.6):
+    """repeat and shuffle the members of the BY lists of `c` (the lists in the case ARE the arguments: the model gets them
+    with the repetitions) and pick a container spelling per part"""
+    cont = {}
+    for k in BYKEYS:
+        l = c.get(k)
+        if not l or rng.random() >= p_key:
+            continue
+        l2 = list(l) + [rng.choice(l) for _ in range(rng.randint(1, 3))]
+        rng.shuffle(l2)
+        c[k] = l2
+        # bysetpos / byeaster are kept as given (tuple(bysetpos), tuple(sorted(byeaster))): only spellings that keep
+        # order and repetitions say the same thing there
+        cont[k] = rng.choice(CONTAINERS[:4] if k in ("bysetpos", "byeaster") else CONTAINERS)
+    if cont:
+        c["container"] = cont
+    if rng.random() < 0.25:
+        c["bools"] = True
+    return c
+
+
+def spelling_cases():
+    """EVERY BY part x every frequency with repeated + unsorted members, in every container spelling (and once with
+    BYSETPOS on top): the constructor normalises by SET (C01.construct_perm_dup_invariant), so the rule, and the strictly
+    increasing duplicate-free sequence, do not depend on the spelling"""
+    members = {"bymonth": [3, 11, 3], "bymonthday": [15, -1, 15, -1], "byyearday": [100, -100, 61, 100], "byweekno": [20, -10, 20, 9],
+               "byweekday": [[1, 0], [3, 0], [1, 0]], "byeaster": [1, -2, 1], "byhour": [17, 9, 17, 9], "byminute": [30, 0, 30],
+               "bysecond": [40, 10, 40, 10], "bysetpos": [1, -1, 1]}
+    out = []
+    i = 0
+    for freq in range(7):
+        for k in BYKEYS:
+            for extra in (None, "bysetpos", "nth"):
+                if extra == "bysetpos" and k == "bysetpos":
+                    continue
+                if extra == "nth" and not (k == "byweekday" and freq <= 1):
+                    continue
+                c = {"freq": freq, "interval": 1, "wkst": None, "dtstart": [2024, 3, 1, 9, 0, 10, 0], "kind": "naive", "n": 8,
+                     k: [list(x) if isinstance(x, list) else x for x in members[k]]}
+                if extra == "nth":
+                    c["byweekday"] = [[4, 1], [4, -1], [4, 1], [2, 2]]
+                if k == "bysetpos" or extra == "bysetpos":
+                    c["bysetpos"] = list(members["bysetpos"])
+                    if freq <= 2 and k in ("bysetpos", "byhour", "byminute", "bysecond"):
+                        c.setdefault("byweekday", [[0, 0], [2, 0], [4, 0]])
+                    if freq >= 3 and k not in ("byhour", "byminute", "bysecond"):
+                        c["bysecond"] = [50, 20, 50]            # several candidates per period for the positions to select from
+                if freq >= 5 and k in ("bymonth", "byyearday", "byweekno", "byeaster", "bymonthday"):
+                    c["interval"] = 3600 if freq == 5 else 86400 * 3 + 7           # reach the matching days within the work cap
+                cont = CONTAINERS[i % len(CONTAINERS)]
+                c["container"] = {kk: (cont if kk not in ("bysetpos", "byeaster") else CONTAINERS[i % 4]) for kk in BYKEYS if c.get(kk)}
+                if i % 5 == 0:
+                    c["bools"] = True
+                i += 1
+                out.append(c)
+    return out
 
 
 def build(c):
@@ -272,8 +359,12 @@ def wire(c):
     return " ".join(toks)
 
 
+RULEKEYS = ["freq", "interval", "wkst", "fwd", "wkst_obj", "count", "until", "dtstart", "kind", "n", "until_isdate", "until_othertz", "scalars",
+            "container", "bools", "text"]
+
+
 def canon(c):
-    return json.dumps({k: c.get(k) for k in ["freq", "interval", "wkst", "fwd", "wkst_obj", "count", "until", "dtstart", "kind", "n"] + BYKEYS}, sort_keys=True)
+    return json.dumps({k: c.get(k) for k in ["freq", "interval", "wkst", "fwd", "wkst_obj", "count", "until", "dtstart", "kind", "n", "container", "bools", "text"] + BYKEYS}, sort_keys=True)
 
 
 def item(x):
@@ -515,6 +606,7 @@ def correspondence(ctx):
         ctx.shared_state_changed = True
     cases = list(WITNESS_CASES) + gen_cases(ctx, "corr", ctx.budget(300, 5000), malformed_rate=0.15)
     cases += ambient_cases(ctx, "corr-ambient", ctx.budget(30, 600))
+    cases += spelling_cases() + interval_cases()
     reqs_c = ["rrule.construct " + wire(c) for c in cases]
     reqs_i = ["rrule.iter %s %d %d" % (wire(c), c["n"], FUEL[c["freq"]]) for c in cases]
     got_c = ctx.driver(reqs_c)
@@ -598,7 +690,7 @@ WITNESS_CASES = [
     {"freq": 0, "interval": 1, "wkst": None, "dtstart": [2032, 1, 1, 0, 0, 0, 0], "kind": "naive", "byeaster": [300], "n": 4},
     # former D-C01f (fixed in /repo 968ce74): BYWEEKNO with a start in year 1
     {"freq": 0, "interval": 1, "wkst": 2, "dtstart": [1, 12, 31, 0, 0, 0, 0], "kind": "naive", "byweekno": [26], "count": 1, "n": 3},
-    # D-C01g
+    # former D-C01g (withdrawn): empty set + ValueError at the first next() is allowed by the property
     {"freq": 5, "interval": 120, "wkst": None, "dtstart": [2024, 1, 1, 0, 0, 0, 0], "kind": "naive", "byhour": [1], "n": 3},
     {"freq": 6, "interval": 3600, "wkst": None, "dtstart": [2024, 1, 1, 0, 0, 0, 0], "kind": "naive", "byminute": [5], "count": 3, "n": 3},
     # D-C01e
@@ -619,6 +711,21 @@ def _safe(pred, v):
         return bool(pred(v))
     except Exception:
         return False
+
+
+def interval_cases():
+    """INTERVAL < 1 (RFC 5545: a positive integer): every frequency x interval 0 / -1 / -2 / -30, bare and with BY parts,
+    COUNT and UNTIL: the constructor must raise ValueError (fix D-C01-interval); before the fix interval=0 yielded the start for
+    ever (duplicates; with UNTIL or a BY part that excludes the start the generator never returned) and interval < 0
+    yielded the start and then raised from date.fromordinal"""
+    out = []
+    for freq in range(7):
+        for iv in (0, -1, -2, -30):
+            for extra in ({}, {"count": 3}, {"until": [2024, 1, 20, 0, 0, 0, 0]}, {"bymonthday": [2]}, {"byhour": [10], "byweekday": [[1, 0]]}):
+                c = {"freq": freq, "interval": iv, "wkst": None, "dtstart": [2024, 1, 10, 9, 0, 0, 0], "kind": "naive", "n": 4}
+                c.update(extra)
+                out.append(c)
+    return out
 
 
 def sweep_cases(full):
@@ -679,6 +786,12 @@ def oracle(ctx):
         evaluate(ctx, sw[i:i + 1000])
         if len(unknown_violations(ctx)) >= 3:
             break
+    sp = spelling_cases()
+    ctx.count("oracle_spelling_cases", len(sp))
+    evaluate(ctx, sp)
+    iv = interval_cases()
+    ctx.count("oracle_interval_cases", len(iv))
+    evaluate(ctx, iv)
     amb = ambient_cases(ctx, "oracle-ambient", ctx.budget(40, 800))
     ctx.count("oracle_ambient_firstweekday_cases", len(amb))
     evaluate(ctx, amb)
@@ -762,7 +875,7 @@ def run_hist_case(ctx, c, hist, tag):
     key = canon(c) + json.dumps(hist)
     ctx.case(key)
     if res is not None:
-        case = {"rule": {k: c.get(k) for k in ["freq", "interval", "wkst", "fwd", "wkst_obj", "count", "until", "dtstart", "kind", "n", "until_isdate", "until_othertz", "scalars"] + BYKEYS},
+        case = {"rule": {k: c.get(k) for k in RULEKEYS + BYKEYS},
                 "history": hist, "diff": {"kind": "interleaved"}}
         ctx.violation(res[0], case, res[1])
     return True
@@ -854,6 +967,21 @@ def evaluate(ctx, cases):
 
 
 def _evaluate(ctx, cases, pending):
+    bad_iv = [c for c in cases if c["interval"] < 1]
+    cases = [c for c in cases if c["interval"] >= 1]
+    for c in bad_iv:
+        # "a rule that can never match either raises ValueError (when built or when first iterated) or yields nothing": for
+        # INTERVAL < 1 there is no period grid at all; the constructor must refuse it
+        st, items, r = run_impl(c, c["n"], work=20000, failsafe=3.0)
+        ctx.case(canon(c), nontrivial=False)
+        ctx.count("oracle_interval_" + st.split("_")[0])
+        if st != "ctor_ValueError":
+            case = {"rule": {k: c.get(k) for k in RULEKEYS + BYKEYS}, "diff": {"kind": "interval", "status": st}}
+            pending.append(("INTERVAL=%d accepted by the constructor (%s, first items %s); RFC 5545 requires a positive integer and "
+                            "the property a ValueError or an empty sequence" % (c["interval"], st, [item(x) for x in items[:3]]),
+                            case, {}, c, st, items))
+    if not cases:
+        return
     classify(ctx, cases, "oracle")
     runs = []
     for c in cases:
@@ -897,7 +1025,7 @@ def _evaluate(ctx, cases, pending):
             if c.get(k) is not None:
                 ctx.count("oracle_has_" + k)
         ctx.count("oracle_kind_" + c["kind"])
-        case = {"rule": {k: c.get(k) for k in ["freq", "interval", "wkst", "fwd", "wkst_obj", "count", "until", "dtstart", "kind", "n", "until_isdate", "until_othertz", "scalars"] + BYKEYS}}
+        case = {"rule": {k: c.get(k) for k in RULEKEYS + BYKEYS}}
         start = DTm(*c["dtstart"][:6])
         # intrinsic laws on whatever was yielded
         tzi = dtstart_obj(c).tzinfo if c["kind"] != "date" else None
@@ -945,11 +1073,11 @@ def _evaluate(ctx, cases, pending):
                               dict(case, diff={"kind": "exception", "exc": kind, "spec": S[0] if S else None}), None)
             elif S:
                 pend("ValueError although the rule matches %s" % S[0], dict(case, diff={"kind": "exception", "exc": kind, "spec": S[0]}), None)
-            elif st.startswith("err_") and c["freq"] >= 5:
-                # the constructor accepted the rule, the recurrence set is empty, and the generator raises instead of stopping
+            elif st.startswith("err_"):
+                # the constructor accepted the rule, the recurrence set is empty (over the checked window), and the FIRST next()
+                # raises ValueError: the property allows exactly this ("raises ValueError (when built or when first
+                # iterated) or yields nothing").  Former finding D-C01g (withdrawn: a false alarm of this oracle).
                 ctx.count("oracle_valueerror_while_iterating_and_spec_empty")
-                pend("ValueError raised by the first iteration although the rule is valid and its recurrence set is empty",
-                     dict(case, diff={"kind": "exception-empty", "exc": kind, "spec": None}), None)
             else:
                 ctx.count("oracle_valueerror_and_spec_empty")
             continue
@@ -1047,13 +1175,7 @@ def k_c01e(v):
     return False
 
 
-def k_c01g(v):
-    r, d = _rule(v), _diff(v)
-    above = r.get("byhour") is not None or (r["freq"] == 6 and r.get("byminute") is not None)
-    return r["freq"] in (5, 6) and above and d.get("kind") == "exception-empty" and d.get("exc") == "ValueError"
-
-
-CLASS = {"D-C01a": k_c01a, "D-C01c": k_c01c, "D-C01d": k_c01d, "D-C01e": k_c01e, "D-C01g": k_c01g}
+CLASS = {"D-C01a": k_c01a, "D-C01c": k_c01c, "D-C01d": k_c01d, "D-C01e": k_c01e}
 
 
 def _known(pred):
